@@ -100,7 +100,7 @@ add('C17',
     "make_cartesian(|v|, a) = v for every angle a satisfying arctan2's defining relation (zero vector included); admissible angles of a non-zero vector share sine "
     "and cosine. Tie: all Q theorems in exact rationals vs the numpy implementation, incl. integer lattices with peaks exactly ON the boundary; the R model is "
     "tied by the float oracle only (round trip, stacks, integer dtypes).",
-    LAT_NOTE + "EXCEPTION to 'no axioms': the four theorems of Props/C17R.v depend on the standard library's real-number axioms "
+    LAT_NOTE + "EXCEPTION to 'no axioms': the five theorems of Props/C17R.v depend on the standard library's real-number axioms "
     "ClassicalDedekindReals.sig_forall_dec, ClassicalDedekindReals.sig_not_dec and FunctionalExtensionality.functional_extensionality_dep (allowed for that file only, "
     "anything else fails the check). arctan2 is characterised by cos a |v| = x, sin a |v| = y rather than defined; that numpy's arctan2/sin/cos/norm satisfy this "
     "to round-off is sampled, not proved.",
